@@ -20,6 +20,8 @@ import (
 	"verif/pk"
 )
 
+var coverArgs []string
+
 var root = func() string {
 	if r := os.Getenv("VERIF_ROOT"); r != "" {
 		return r
@@ -136,7 +138,17 @@ func main() {
 
 	// ---- build (always from /repo's current working tree through the replace directive)
 	worker := filepath.Join(binDir, "worker-"+strings.ToLower(id))
-	if out, err := run(env, root, "go", "build", "-o", worker, "./cmd/worker"); err != nil {
+	// VERIF_COVER=<dir>: measurement mode (tools/coverage.sh), never used by the registered commands
+	coverDir := os.Getenv("VERIF_COVER")
+	buildArgs := []string{"build"}
+	testArgs := []string{"test", "-c"}
+	if coverDir != "" {
+		os.MkdirAll(coverDir, 0o755)
+		cov := []string{"-cover", "-covermode=atomic", "-coverpkg=./...,github.com/smarthome-go/homescript/v3/homescript/..."}
+		buildArgs = append(buildArgs, cov...)
+		testArgs = append(testArgs, cov...)
+	}
+	if out, err := run(env, root, "go", append(buildArgs, "-o", worker, "./cmd/worker")...); err != nil {
 		die2("worker build failed:\n%s", out)
 	}
 	needRace := false
@@ -152,7 +164,7 @@ func main() {
 		}
 	}
 	testBin := filepath.Join(binDir, strings.ToLower(id)+".test")
-	if out, err := run(env, root, "go", "test", "-c", "-o", testBin, "./props/"+cfg.Pkg); err != nil {
+	if out, err := run(env, root, "go", append(testArgs, "-o", testBin, "./props/"+cfg.Pkg)...); err != nil {
 		die2("test build failed:\n%s", out)
 	}
 	if after, _ := os.ReadFile("/repo/go.sum"); !bytes.Equal(after, repoSumBefore) {
@@ -161,6 +173,10 @@ func main() {
 	// rapid replays testdata/rapid first; never wanted here
 	os.RemoveAll(filepath.Join(root, "props", cfg.Pkg, "testdata", "rapid"))
 
+	if coverDir != "" {
+		env = append(env, "VERIF_COVDIR="+coverDir)
+		coverArgs = []string{"-test.gocoverdir=" + coverDir}
+	}
 	baseEnv := append(env, "VERIF_PROP="+id, "VERIF_TIER="+tier, "VERIF_SEED="+strconv.FormatInt(seed, 10),
 		"VERIF_OUT="+outDir, "VERIF_KNOWN="+filepath.Join(root, "known_findings.json"), "VERIF_WORKER="+worker,
 		"VERIF_ROOT="+root)
@@ -398,7 +414,7 @@ func sanitize(s string) string {
 func runTest(baseEnv []string, bin, outDir, job string, shard, shards int, pattern string, checks int, rseed int64, extra []string, timeout time.Duration) (procResult, error) {
 	statsPath := filepath.Join(outDir, fmt.Sprintf("stats-%s-%d.json", job, shard))
 	os.Remove(statsPath)
-	args := []string{"-test.run", pattern, "-test.timeout", "0", "-test.count", "1", "-test.v"}
+	args := append([]string{"-test.run", pattern, "-test.timeout", "0", "-test.count", "1", "-test.v"}, coverArgs...)
 	if checks > 0 {
 		args = append(args, "-rapid.checks", strconv.Itoa(checks), "-rapid.seed", strconv.FormatInt(rseed, 10), "-rapid.nofailfile")
 	}
